@@ -52,6 +52,11 @@ func VerifInFlight(rc hrpc.RegionClient) uint32 {
 	return c.inFlight
 }
 
+// VerifInFlightUnlocked reads the in-flight counter without taking inFlightM, for use while
+// the harness holds a goroutine parked inside SetReadDeadline (which keeps inFlightM locked) and
+// nothing else is running.
+func VerifInFlightUnlocked(rc hrpc.RegionClient) uint32 { return rc.(*client).inFlight }
+
 // VerifSentLen returns the number of registered (sent, unanswered) calls.
 func VerifSentLen(rc hrpc.RegionClient) int {
 	c := rc.(*client)
